@@ -5,6 +5,7 @@ import (
 	_ "github.com/bandprotocol/chain/v3/zzverif/props/c01"
 	_ "github.com/bandprotocol/chain/v3/zzverif/props/c03"
 	_ "github.com/bandprotocol/chain/v3/zzverif/props/c05"
+	_ "github.com/bandprotocol/chain/v3/zzverif/props/c06"
 	_ "github.com/bandprotocol/chain/v3/zzverif/props/c07"
 	_ "github.com/bandprotocol/chain/v3/zzverif/props/c10"
 	_ "github.com/bandprotocol/chain/v3/zzverif/props/c11"
